@@ -243,3 +243,225 @@ def q_script_parse(env, part="all", name=None):
         run_case(label, [z3.BitVecVal(b, 8) for b in raw], [], ("err", None), "a conditional block that is never closed is accepted")
     qr.samples.append({"obligation": qr.name, "shapes": list(SHAPES), "unclosed": list(UNCLOSED)})
     return qr
+
+
+# ----------------------------------------------------------------------------- exhaustive element-class sequences (C02)
+def q_script_enum(env, max_elems=2, name=None):
+    """Script::from_bytes on EVERY sequence of at most `max_elems` elements drawn from an alphabet of element classes (OP_0, direct
+    pushes of 1 and 2 bytes, OP_PUSHDATA1 with 0 and 1 bytes, OP_PUSHDATA2 / OP_PUSHDATA4 with 1 byte, OP_IF, OP_NOTIF, OP_ELSE,
+    OP_ENDIF, an ordinary opcode, a byte that is no opcode), all payload bytes symbolic, plus every cut inside a final OP_PUSHDATA
+    element.  Oracle (an independent tokenizer over the class sequence): (1) whenever the input is accepted, the serialisation order
+    of the parsed structure is exactly the input bytes (nothing altered, dropped, padded or re-nested differently); (2) a balanced,
+    well-formed sequence must be accepted; (3) an unclosed conditional or a truncated final OP_PUSHDATA push must be rejected.
+    Stray OP_ELSE / OP_ENDIF, a second OP_ELSE and non-opcode bytes may be accepted or rejected (only (1) applies).  Inputs whose
+    final element is a truncated DIRECT push belong to the open known finding (c02_truncated_direct_push) and are not generated."""
+    import itertools
+    qr = QResult(name or f"script_enum_{max_elems}")
+    P = env.P
+    f = env.fn("script::Script::from_bytes")
+    OPS = P.enums["OpCodes"]
+    known = set(OPS.values())
+    non_op = next(b for b in range(0xff, 0x4e, -1) if b not in known)
+    from .models_bip32 import _cur
+
+    def m_cursor_read(ex, a, callee, canon):
+        c = _cur(a[0])
+        tgt = a[1]
+        while isinstance(tgt.get(), Ptr):
+            tgt = tgt.get()
+        items = ex.seq_items(ex.bytes_of(tgt.get()))
+        if items is None:
+            raise Unsupported("read into a buffer of symbolic length")
+        n = min(len(items), max(len(c.items) - c.pos, 0))
+        new = c.items[c.pos:c.pos + n] + list(items[n:])
+        tgt.set(Bytes(seq_of(new)))
+        c.pos += n
+        return ok(Int(n, "usize"))
+    R = re.compile
+    SM = [(R(r"^<Cursor<.*> as (std::io::)?Read>::read$"), m_cursor_read)] + [(R(rx.pattern.replace("Cursor<Vec<u8>>", "Cursor<.*>")), fn) for rx, fn in BMODELS]
+    bv = lambda v: z3.BitVecVal(v, 8)
+    # class -> (header bytes, payload length, kind)
+    CLASSES = {"OP_0": ([0x00], 0, "op"), "push1": ([0x01], 1, "push"), "push2": ([0x02], 2, "push"), "pd1_0": ([0x4c, 0x00], 0, "pd"), "pd1_1": ([0x4c, 0x01], 1, "pd"),
+               "pd2_1": ([0x4d, 0x01, 0x00], 1, "pd"), "pd4_1": ([0x4e, 0x01, 0x00, 0x00, 0x00], 1, "pd"), "IF": ([0x63], 0, "if"), "NOTIF": ([0x64], 0, "if"),
+               "ELSE": ([0x67], 0, "else"), "ENDIF": ([0x68], 0, "endif"), "DUP": ([0x76], 0, "op"), "nonop": ([non_op], 0, "nonop")}
+    names = {v: k for k, v in OPS.items()}
+
+    def flat(ex, bits):
+        """serialisation order of a parsed structure as a list of z3 bytes (None when a payload has no concrete length)"""
+        out = []
+        for b in bits:
+            b = deref(b)
+            if b.variant == "OpCode":
+                out.append(bv(deref(b.f[0]).discr))
+            elif b.variant == "Push":
+                it = ex.seq_items(b.f[0].s)
+                if it is None or len(it) > 75:
+                    return None
+                out += [bv(len(it))] + list(it)
+            elif b.variant == "PushData":
+                it = ex.seq_items(b.f[1].s)
+                code = deref(b.f[0]).discr
+                if it is None:
+                    return None
+                w = {0x4c: 1, 0x4d: 2, 0x4e: 4}.get(code)
+                if w is None:
+                    return None
+                out += [bv(code)] + [bv((len(it) >> (8 * i)) & 0xff) for i in range(w)] + list(it)
+            elif b.variant == "If":
+                fl = deref(b.f[2])
+                p = flat(ex, deref(b.f[1]).f)
+                if p is None:
+                    return None
+                out += [bv(deref(b.f[0]).discr)] + p
+                if fl.variant == "Some":
+                    q = flat(ex, deref(fl.f[0]).f)
+                    if q is None:
+                        return None
+                    out += [bv(0x67)] + q
+                out.append(bv(0x68))
+            else:
+                return None
+        return out
+
+    def classify(seq):
+        """independent tokenizer verdict for an UNCUT class sequence: 'accept' | 'reject' | 'either'"""
+        stack = []   # per open conditional: has_else
+        verdict = "accept"
+        for cl in seq:
+            k = CLASSES[cl][2]
+            if k == "nonop":
+                verdict = "either"
+            elif k == "if":
+                stack.append(False)
+            elif k == "else":
+                if not stack or stack[-1]:
+                    verdict = "either"
+                    if not stack:
+                        continue
+                stack[-1] = True
+            elif k == "endif":
+                if not stack:
+                    verdict = "either"
+                    continue
+                stack.pop()
+        if stack and verdict == "accept":
+            return "reject"     # a conditional block that is never closed
+        return verdict
+
+    def native(raw):
+        req = {"tx": {"version": 1, "locktime": 0, "inputs": [], "outputs": []}, "ops": [{"op": "script_roundtrip", "hex": raw.hex()}]}
+        return req, {p: C.Native.run(req, p)[0] for p in ("debug", "release")}
+
+    f_ser = env.fn("script::Script::to_bytes")
+
+    def run_case(label, units, expect):
+        qr.cases += 1
+        ex = Exec(P, SM + MODELS, max_paths=400)
+
+        def setup(ex):
+            ctx = Ctx()
+            ctx.reser = None
+            ex._ctx = ctx
+            return "__parse_then_serialise__", [Ptr([Bytes(seq_of(units))], 0)], ctx
+        orig = ex.call_fn
+
+        def call_fn(name_, args, ex=ex, orig=orig):
+            if name_ != "__parse_then_serialise__":
+                return orig(name_, args)
+            # the REAL serialiser runs on whatever the real parser returned, on the same path
+            r0 = orig(f, args)
+            if r0.variant == "Ok":
+                ex._ctx.reser = orig(f_ser, [Ptr([r0.f[0]], 0)])
+            return r0
+        ex.call_fn = call_fn
+        try:
+            res = ex.explore(setup)
+        except Unsupported as e:
+            qr.undecided.append(f"script classes [{label}]: {e}")
+            return
+        for r in res:
+            qr.paths += 1
+            bad, neq = None, []
+            if r.kind != "ok":
+                bad = f"{r.kind}: {r.msg.split(' @')[0][:70]}"
+            elif r.ret.variant == "Ok":
+                if expect == "reject":
+                    bad = "an unclosed conditional or a truncated final OP_PUSHDATA push is accepted instead of rejected"
+                else:
+                    g = flat(ex, r.ret.f[0].f[0].f)
+                    rs = ex.seq_items(deref(r.ctx.reser).s) if r.ctx.reser is not None else None
+                    if rs is None or len(rs) != len(units) or any(z3.simplify(x != y) is not None and z3.is_true(z3.simplify(x != y)) for x, y in zip(rs, units)):
+                        bad = "accepted, but Script::to_bytes of the parsed script is not the input byte string"
+                    elif g is None or len(g) != len(units):
+                        bad = "accepted, but the parsed structure does not serialise back to the input bytes (an element was altered, dropped, padded or nested differently)"
+                    else:
+                        for x, y in zip(g, units):
+                            if x.get_id() == y.get_id():
+                                continue
+                            xs, ys = z3.simplify(x), z3.simplify(y)
+                            if z3.is_bv_value(xs) and z3.is_bv_value(ys):
+                                if xs.as_long() != ys.as_long():
+                                    bad = "accepted, but the parsed structure does not serialise back to the input bytes (an element was altered, dropped, padded or nested differently)"
+                                    break
+                            else:
+                                neq.append(x != y)
+                        if bad is None:
+                            neq += [x != y for x, y in zip(rs, units) if x.get_id() != y.get_id()]
+                        if bad is None and neq:
+                            s = z3.Solver()
+                            for cnd in r.pc:
+                                s.add(cnd)
+                            s.add(z3.Or(*neq))
+                            qr.queries += 1
+                            if s.check() == z3.sat:
+                                bad = "accepted, but a push payload (in the parsed structure or in Script::to_bytes of it) differs from the bytes in the input"
+            elif expect == "accept":
+                bad = "a well-formed script is rejected"
+            if bad is None:
+                continue
+            s = z3.Solver()
+            for cnd in r.pc:
+                s.add(cnd)
+            if neq and "payload" in bad:
+                s.add(z3.Or(*neq))
+            qr.queries += 1
+            if s.check() != z3.sat:
+                continue
+            m = s.model()
+            raw = bytes(m.eval(u, model_completion=True).as_long() for u in units)
+            req, nat = native(raw)
+            msg = f"script classes [{label}]: {bad}"
+            item = {"message": msg, "request": req, "op_index": 0, "expected": ("error" if expect == "reject" else raw.hex() if expect == "accept" else "error or " + raw.hex()), "native": nat}
+            if expect == "reject":
+                rep = any("ok" in v for v in nat.values())
+            elif expect == "accept":
+                rep = any(v.get("ok") != raw.hex() for v in nat.values())
+            else:
+                rep = any("ok" in v and v.get("ok") != raw.hex() for v in nat.values()) or any("panic" in v for v in nat.values())
+            if rep:
+                if len(qr.violations) < MAX_VIOLATIONS and not any(v["message"] == msg for v in qr.violations):
+                    qr.violations.append(item)
+            else:
+                qr.undecided.append(msg + " — not reproduced natively: " + json.dumps(nat)[:200])
+        finish(qr, ex)
+
+    n_seq = 0
+    for k in range(0, max_elems + 1):
+        for seq in itertools.product(CLASSES, repeat=k):
+            n_seq += 1
+            units, cnt = [], 0
+            for cl in seq:
+                hdr, n, _ = CLASSES[cl]
+                units += [bv(b) for b in hdr] + [z3.BitVec(f"p{cnt}_{i}", 8) for i in range(n)]
+                cnt += 1
+            label = " ".join(seq) if seq else "(empty)"
+            run_case(label, units, classify(seq))
+            # every cut inside a final OP_PUSHDATA element (header incomplete, or payload missing)
+            if seq and CLASSES[seq[-1]][2] == "pd" and all(CLASSES[c][2] != "nonop" for c in seq[:-1]):
+                hdr, n, _ = CLASSES[seq[-1]]
+                for cut in range(1, len(hdr) + n):
+                    if cut >= len(hdr) + n:
+                        continue
+                    run_case(f"{label}, cut by {cut} byte(s)", units[:len(units) - cut], "reject")
+    qr.samples.append({"obligation": qr.name, "classes": list(CLASSES), "sequences": n_seq, "max_elements": max_elems, "non_opcode_byte": non_op})
+    return qr
